@@ -227,6 +227,21 @@ def run(pid, tier, out):
     tie_broken = bool(bad) or bool(wdis) or corr_error is not None
 
     found = False
+    stale = [b for b in mid.get('read_problems', []) if b.get('stale_generation_only')]
+    if stale:
+        if any(f.get('kind') == 'known' and f.get('property') == 'C11' and f.get('match', {}).get('kind') == 'read-spans-transactions'
+               for f in common.load_known()):
+            out.known_finding('GET %s answered while a write to the provider commits between its transactions carries the provider generation '
+                              'of before the write with the data of after it (%d points of this run)' % (stale[0]['path'].split('?')[0], len(stale)))
+        else:
+            found = True
+            out.violation({'kind': 'write-during-read', 'path': stale[0]['path'], 'write': stale[0]['write']}, 'stale provider generation in a read')
+    for b in [x for x in mid.get('read_problems', []) if not x.get('stale_generation_only')][:3]:
+        found = True
+        out.violation({'kind': 'write-during-read', 'path': b['path'], 'version': b['version'], 'statement': b['statement'], 'write': b['write'],
+                       'mid': b['mid'], 'before': b['before'], 'after': b['after'], 'replay_cmd': 'python -m harness.midreads --reads'},
+                      'GET %s at 1.%s, with %s committed between its transactions, reports %s - neither the state before that write nor '
+                      'after it' % (b['path'], b['version'], b['write'], str(b['mid'])[:200]))
     for b in mid['problems'][:3]:
         found = True
         out.violation({'kind': 'mid-read', 'corpus': b['corpus'], 'transaction': b['transaction'], 'path': b['path'],
@@ -284,7 +299,7 @@ def run(pid, tier, out):
                'GET /traits?name=startswith: is not modelled (names are opaque tokens)'],
            'theorems': [{'name': n, 'closed_under_global_context': c, 'assumptions': a} for n, c, a in ps['theorems']],
            'proof_error': ps['error'], 'hygiene_hits': hyg,
-           'evaluations': n_reads + wstats['evaluations'] + mid['reads'], 'reads_during_requests': mid['reads'], 'points_inside_requests': mid['points'], 'distinct_nontrivial': sum(v for k, v in cover.items() if k[2]) + len(wstats['distinct']),
+           'evaluations': n_reads + wstats['evaluations'] + mid['reads'], 'reads_during_requests': mid['reads'], 'points_inside_requests': mid['points'], 'writes_during_reads_points': mid.get('read_points', 0), 'distinct_nontrivial': sum(v for k, v in cover.items() if k[2]) + len(wstats['distinct']),
            'rule': '%d histories x %d generated requests, each followed by every read route for every provider/consumer/project/class/trait of the '
                    'pools at the microversions around each representation change (a case = one read after one prefix; non-trivial = '
                    'answered 200 with rows) + %d write histories x 30 requests compared with the model' % (n_hist, n_ops, len(cases)),
@@ -305,6 +320,12 @@ def replay(pid, path, out):
             out.violation(v['payload'], v['text'])
         return
     d = json.load(open(path))
+    if d.get('kind') == 'write-during-read':
+        from harness import midreads
+        n, bad = midreads.run_writes_during_reads()
+        for b in [x for x in bad if not x.get('stale_generation_only')][:1]:
+            out.violation(d, 'GET %s with %s committed between its transactions reports neither the state before nor after' % (b['path'], b['write']))
+        return
     if d.get('kind') == 'mid-read':
         from harness import midreads
         n, r, bad = midreads.run(d.get('corpus'))
